@@ -20,9 +20,9 @@ Qed.
 Definition resolves_to (lit : string -> outcome litres) (re_search : string -> string -> outcome reres)
            (tm : terms) (d : node) (h : hit) : Prop :=
   match h_kind h with
-  | HValue => exists i v, reach d (h_loc h) (NLeaf i v) /\ satisfies lit re_search tm v
+  | HValue => exists i v, reach d (h_loc h) (NLeaf i v) /\ satisfies lit re_search tm (NLeaf i v)
   | HKey => exists l0 kn m, h_loc h = (l0 ++ [key_ref kn])%list /\ reach d (h_loc h) m /\
-                            satisfies lit re_search tm (key_val kn)
+                            satisfies lit re_search tm kn
   | _ => True
   end.
 
@@ -33,10 +33,10 @@ Theorem resolves_location lit re_search mt tm sp o d res :
 Proof.
   intros Ha Hx Ht E h Hin. pose proof (sound lit re_search mt tm sp o d res Ha Hx Ht E h Hin) as J.
   unfold justified in J. unfold resolves_to. destruct (h_kind h); auto.
-  - destruct J as [_ [k [[l0 [i [kvs [kn [v [El [R [Hi Hk]]]]]]]] Hs]]].
-    exists l0, kn, v. split; auto. split.
-    + rewrite El. eapply reach_snoc; eauto. constructor; auto.
-    + rewrite Hk. auto.
-  - destruct J as [_ [v [[l0 [p [r [i [El [R Hc]]]]]] Hs]]].
+  - destruct J as [_ [kn [[l0 [i [kvs [v [El [R Hi]]]]]] Hs]]].
+    exists l0, kn, v. split; auto. split; auto.
+    rewrite El. eapply reach_snoc; eauto. constructor; auto.
+  - destruct J as [_ [s [[l0 [p [r [El [R [Hc Hl]]]]]] Hs]]].
+    destruct s as [i v| | |]; try discriminate.
     exists i, v. split; auto. rewrite El. eapply reach_snoc; eauto.
 Qed.
